@@ -45,7 +45,7 @@ import (
 func init() {
 	Register(&Prop{
 		ID: "C30",
-		Rule: "ext: batches of 6 schemas x rows x custom metadata, thresholds at buf-1/buf/buf+1/default, compression none/zstd/other x levels; " +
+		Rule: "ext: batches of 7 schemas (one high-entropy/incompressible) x rows x custom metadata, thresholds at buf-1/buf/buf+1/default, compression none/zstd/other x levels; " +
 			"rt: full externalize->TLS origin->resolve round trips with tampering and checksum modes; res: fetched streams built from data/log/pointer/odd batches " +
 			"in any order (exhaustive to length 3 quick, 4 thorough) with tampered bytes, encodings and statuses; non-trivial = case has an rt or res line; distinct = distinct scripts",
 		Gen:  c30Gen,
@@ -78,6 +78,8 @@ func c30Schema(kind int) *arrow.Schema {
 		return arrow.NewSchema([]arrow.Field{{Name: "v", Type: arrow.PrimitiveTypes.Int64}}, md(vgirpc.MetaLocation, "https://elsewhere.example/x"))
 	case 5:
 		return arrow.NewSchema([]arrow.Field{{Name: "v", Type: arrow.PrimitiveTypes.Int64}}, md("app", "meta"))
+	case 6: // high-entropy column: the IPC bytes do not shrink under zstd
+		return arrow.NewSchema([]arrow.Field{{Name: "h", Type: arrow.PrimitiveTypes.Uint64}}, nil)
 	default:
 		return arrow.NewSchema([]arrow.Field{{Name: "v", Type: arrow.PrimitiveTypes.Int64}}, nil)
 	}
@@ -145,6 +147,14 @@ func c30Build(b c30Batch, schema *arrow.Schema) arrow.RecordBatch {
 			bl := array.NewInt64Builder(c30Mem)
 			for r := 0; r < b.rows; r++ {
 				bl.Append(int64(b.seed)*1000003 + int64(r))
+			}
+			cols[i] = bl.NewArray()
+			bl.Release()
+		case arrow.UINT64:
+			bl := array.NewUint64Builder(c30Mem)
+			rg := NewRng(uint64(b.seed)*7919 + 13)
+			for r := 0; r < b.rows; r++ {
+				bl.Append(rg.U64())
 			}
 			cols[i] = bl.NewArray()
 			bl.Release()
@@ -970,6 +980,18 @@ func c30Gen(g *Gen) {
 			Pick(r, tampers), Pick(r, []string{"keep", "keep", "keep", "good", "none", "wrong", "upper", "empty"})))
 	}
 
+	// (b') incompressible (high-entropy) batches at/above the threshold WITH compression: zstd cannot
+	// shrink them; whatever is uploaded must still decode, under the encoding it is tagged with, to
+	// the original batch
+	for i := 0; i < g.N(24, 300); i++ {
+		rows := Pick(r, []int{64, 200, 1000, 1000, 2000, 4096, 4096, 20000})
+		if !g.Thorough() && rows > 4096 && r.Chance(70) {
+			rows = 512
+		}
+		g.Case(fmt.Sprintf("rt cfg=1 storage=1 thr=%s alg=zstd level=%d upfail=0 b=6/%d/%d/%s val=%s tamper=none sha=keep",
+			Pick(r, []string{"rel:0", "rel:-8", "abs:1", "abs:64"}), Pick(r, []int{0, 1, 2, 3, 4}), rows, r.Range(1, 999),
+			c30GenMeta(r, Pick(r, []string{"none", "none", "app"})), Pick(r, []string{"nil", "ok", "https"})))
+	}
 	// (c) fetched streams: random arrangements
 	for i := 0; i < g.N(300, 4000); i++ {
 		kind := r.Intn(6)
